@@ -131,8 +131,8 @@ class Objective:
         X = np.asarray(X)
         if X.dtype == object:  # trees etc: use len / hash based integer value
             v = np.array([float(len(t)) for t in X], dtype=np.float64)
-            if self.kind == "nearties":
-                v = 1.0 + v * 2.0 ** -26
+            if self.kind in ("nearties", "nearties45"):
+                v = 1.0 + v * 2.0 ** (-26 if self.kind == "nearties" else -45)
             if self.kind in ("penalty", "penalty_min"):
                 v = np.where(v % 5 == 4, -1e20 if self.kind == "penalty" else 1e20, v)
             if self.kind == "nanstrip" and self.batches:      # defined everywhere on the initial population
@@ -154,9 +154,10 @@ class Objective:
                 v = Xf @ w
             elif self.kind == "minx":
                 v = -Xf.min(axis=1)
-            elif self.kind == "nearties":
-                # distinct values that are "close" (relative gaps of 1.5e-8: far below np.isclose's 1e-5, far above rounding)
-                v = 1.0 + np.floor(Xf.sum(axis=1) * 4.0) * 2.0 ** -26
+            elif self.kind in ("nearties", "nearties45"):
+                # distinct values that are "close": relative gaps of 1.5e-8 (far below np.isclose's default 1e-5) or 2.8e-14 (below any
+                # hand-picked 1e-12 tolerance), both far above rounding (2.2e-16)
+                v = 1.0 + np.floor(Xf.sum(axis=1) * 4.0) * 2.0 ** (-26 if self.kind == "nearties" else -45)
             elif self.kind in ("penalty", "penalty_min"):
                 # ordinary O(10) values with a "death penalty" of -/+1e20 for infeasible individuals (magnitudes 1e21 apart);
                 # penalty_min is meant to be minimised
